@@ -151,7 +151,9 @@ class Engine:
                     parts.append(("val", self.ev(v.value, p, fr), v.conversion, spec))
             return ("fstr", tuple(parts))
         if isinstance(e, ast.Await):
-            return ("await", self.ev(e.value, p, fr))
+            v = self.ev(e.value, p, fr)
+            self.havoc_fields(p)
+            return ("await", v)
         if isinstance(e, (ast.GeneratorExp, ast.ListComp)) and len(e.generators) == 1 and not e.generators[0].ifs and isinstance(e.generators[0].target, ast.Name):
             it = self.ev(e.generators[0].iter, p, fr)
             elems = None
@@ -235,10 +237,17 @@ class Engine:
                 v = M.const_value(cv, fr["fn"])
                 if v is not None:
                     return ("c", v)
-        return ("f0", base, name)
+        ep = p.store.get(("epoch",), 0)
+        return ("f0", base, name, ep) if ep else ("f0", base, name)
+
+    def havoc_fields(self, p):
+        """an await point: other coroutines may run, so every field read afterwards is a new value"""
+        for k in [k for k in p.store if k[0] == "f"]:
+            del p.store[k]
+        p.store[("epoch",)] = p.store.get(("epoch",), 0) + 1
 
     def version(self, base, p):
-        v = 0
+        v = 1000 * p.store.get(("epoch",), 0)
         b = base
         while b and b != ("self0",):
             v += p.store.get(("ver", b), 0)
@@ -437,6 +446,7 @@ class Engine:
                 return [q for q, _ in self.exec_call(s.value, p, fr)]
             if isinstance(s.value, ast.Await):
                 p.effects.append(("await", self.ev(s.value.value, p, fr), s.lineno))
+                self.havoc_fields(p)
                 return [p]
             self.ev(s.value, p, fr)
             return [p]
@@ -584,6 +594,15 @@ class Engine:
         if isinstance(node, ast.Attribute):
             return ("f", self.ev(node.value, p, fr), node.attr)
         return None
+
+
+def strip_epoch(sv):
+    """drop the await-epoch of field reads (for role matching: the same field, whatever its value at that time)"""
+    if isinstance(sv, tuple):
+        if len(sv) == 4 and sv[0] == "f0":
+            return ("f0", strip_epoch(sv[1]), sv[2])
+        return tuple(strip_epoch(x) for x in sv)
+    return sv
 
 
 # ---------------------------------------------------------------- pretty printing
